@@ -113,6 +113,27 @@ def theorem_domain(rep, model, modules):
                     rep.bump('theorem_domain_variables_inside')
                 else:
                     rep.bump('theorem_domain_variables_outside')
+            elif d[0] == 'class':
+                # the class without template, base, static methods, operators, dunder methods and nested enums, and with the
+                # constructors, methods and properties the model accepts one by one
+                empty = ['class', [], d[2], d[3], [], [], [], [], [], [], [], []]
+                if not model.ask('printdecls', [empty]).startswith('ok '):
+                    rep.bump('theorem_domain_classes_outside')
+                    continue
+                kept = list(empty)
+                for slot, what in ((5, 'constructors'), (6, 'methods'), (9, 'properties')):
+                    for m in d[slot]:
+                        one = list(empty)
+                        one[slot] = [m]
+                        if model.ask('printdecls', [one]).startswith('ok '):
+                            kept[slot] = kept[slot] + [m]
+                            rep.bump('theorem_domain_class_%s_inside' % what)
+                        else:
+                            rep.bump('theorem_domain_class_%s_outside' % what)
+                out.append(kept)
+                rep.bump('theorem_domain_classes_inside')
+                rep.coverage['theorem_domain_max_members'] = max(rep.coverage.get('theorem_domain_max_members', 0),
+                                                                 len(kept[5]) + len(kept[6]) + len(kept[9]))
             elif d[0] == 'ns':
                 out.append(['ns', d[1], prune(d[2], depth + 1)])
                 rep.bump('theorem_domain_namespaces')
